@@ -130,6 +130,18 @@ chk("C02", "model_checking",
     "TLA+ spec Orient.tla (Cayley rationals x integer metrics) model-checked by TLC + step-by-step replay of every path into both modules",
     "DESIGN.md section 7 C02")
 
+chk("C03", "model_checking",
+    "Rotation.tla defines each constructor (Bunge Euler, omega, omega with chi/wedge, quaternion omega, detector tilt, Rodrigues) as the "
+    "documented composition of elementary rotations over Pythagorean angles, i.e. exact integer matrices over a denominator; TLC checks "
+    "N'N = den^2 I, det N = den^3 and the gimbal structure and emits the exact matrix, which the real builders of both modules must "
+    "reproduce to 1e-12. u_to_euler and u_to_rod are run on every lattice matrix (PHI exactly 0/pi, axis-aligned, |r| up to 1000) and "
+    "must return angles in range that rebuild the input to 1e-6. Gimbal.tla enumerates the full product of magnitude classes for the "
+    "near-gimbal band (PHI = 0/pi +- 1e-1..1e-13, phi near 0, pi, 2pi); there the property itself is the oracle on a matrix the "
+    "harness builds from its own Rz.Rx.Rz product.",
+    "Trusted: TLC integer algebra; atan2/cos/sin of the harness to produce float arguments; the near-gimbal band is covered by classes, not by exact rationals.",
+    "TLA+ specs Rotation.tla (exact rational builders) and Gimbal.tla (magnitude-class product) model-checked by TLC + replay into both modules",
+    "DESIGN.md section 7 C03")
+
 ALL = ["C%02d" % i for i in range(1, 21)]
 
 
